@@ -141,6 +141,12 @@ func executeRun(s *RunSpec, runIdx int, racePath string) (doneEv, *violEv) {
 			}
 			if r.skipped {
 				d.Skipped++
+			} else if opLibrary(op.K) {
+				name := opNames[op.K]
+				if opCounts[name] == nil {
+					opCounts[name] = map[string]int{}
+				}
+				opCounts[name][kindName(s, conc, op)]++
 			}
 			if op.K == opSend && !r.skipped {
 				sharedMsgs++
@@ -204,8 +210,10 @@ func executeRun(s *RunSpec, runIdx int, racePath string) (doneEv, *violEv) {
 	return d, nil
 }
 
+var opCounts = map[string]map[string]int{}
+
 func endReport(runs int) endEv {
-	e := endEv{Ev: "end", Runs: runs, NumSites: len(hook.Sites), NumLabel: numLabels, OpOnly: hook.OpOnly}
+	e := endEv{Ev: "end", Runs: runs, NumSites: len(hook.Sites), NumLabel: numLabels, OpOnly: hook.OpOnly, OpCounts: opCounts}
 	for i, c := range siteHit {
 		if c > 0 {
 			e.Sites = append(e.Sites, i)
